@@ -92,6 +92,7 @@ let gop_of (tok : string) : gop =
   | 'o' -> GStore true
   | 'f' -> GStore false
   | 'c' -> GCrash
+  | 't' -> GReset
   | _ -> failwith ("bad group op: " ^ tok)
 
 let g_final (s : gstate) : string =
@@ -116,7 +117,8 @@ let kop_of (tok : string) : kop =
   | _ -> failwith ("bad check-in op: " ^ tok)
 
 let k_final (s : kstate) : string =
-  Printf.sprintf "%s %s %s" (dec_of_n (c_next s.k_ctr)) (kv_str s.k_kv) (dec_of_n (c_persist_value s.k_ctr))
+  (* "bare=ok": the harness drives a bare CheckInCounter next to the Icd and prints a difference here *)
+  Printf.sprintf "%s %s %s bare=ok" (dec_of_n (c_next s.k_ctr)) (kv_str s.k_kv) (dec_of_n (c_persist_value s.k_ctr))
 
 let buf = Buffer.create 65536
 
@@ -150,6 +152,8 @@ let run_model (line : string) =
       List.iter (fun tok ->
         if tok = "c" then begin
           let (s', e) = g_step true !s GCrash in s := s'; evs := e :: !evs
+        end else if tok = "t" then begin
+          let (s', e) = g_step true !s GReset in s := s'; evs := e :: !evs
         end else if tok.[0] = 's' then begin
           let (s', e) = g_step true !s (GSync (n_of_dec (rest tok))) in s := s'; evs := e :: !evs
         end else begin
@@ -263,6 +267,14 @@ let () =
   try
     while true do
       let line = input_line stdin in
-      if spec_mode then run_spec line else run_model line
+      (* one output line per input line, whatever the line contains: a line that cannot be
+         parsed (unexpected token, harness panic marker) is answered with "?" for the checker *)
+      (try if spec_mode then run_spec line else run_model line
+       with End_of_file -> raise End_of_file
+          | _ ->
+              Buffer.clear buf;
+              (match String.split_on_char ' ' line with
+               | k :: id :: _ -> Printf.printf "%s %s ?\n" k id
+               | _ -> ()))
     done
   with End_of_file -> ()
